@@ -447,6 +447,15 @@ def gen_random(rng, index):
         if rng.random() < 0.08:
             step["force"] = True
         steps.append(step)
+    if cache_max == 0:
+        # with memoisation switched off the heaviest operations (tick-over
+        # across millennia, above all on week dates) cost seconds each: a
+        # history full of them would run for minutes -- keep them light here
+        import json
+        text = json.dumps(steps)
+        text = re.sub(r"P(\d{5,})D", "P400D", text)
+        text = re.sub(r"PT(\d{6,})H", "PT36H", text)
+        steps = json.loads(text)
     return {"property": PROP, "kind": "random", "index": index,
             "clients": sps, "cache_max": cache_max, "steps": steps,
             # the process's local zone: fixed for the run, often not UTC
